@@ -126,30 +126,8 @@ func (x *c12) checkCloserRun() {
 	}
 
 	cache := c12SpawnCache{}
-	classify := func(f *ssa.Function) (c12WorkerKind, FieldID, bool) {
-		inner := x.callsAnchor(f, x.rmRun)
-		closer := false
-		for g := range x.tree(f) {
-			allInstrs(g, func(in ssa.Instruction) {
-				if c, ok := in.(*ssa.Call); ok && !c.Call.IsInvoke() {
-					if sig, ok := c.Call.Value.Type().Underlying().(*types.Signature); ok && sig.Params().Len() == 0 && sig.Results().Len() == 1 {
-						switch c.Call.Value.(type) {
-						case *ssa.Function, *ssa.MakeClosure, *ssa.Builtin:
-						default:
-							closer = true
-						}
-					}
-				}
-			})
-		}
-		switch {
-		case inner:
-			return wkInner, FieldID{}, true
-		case closer:
-			return wkCloser, x.cmClosers, true
-		}
-		return 0, FieldID{}, false
-	}
+	// the kind of a goroutine (inner manager / closer) is found by exploring it
+	classify := func(f *ssa.Function) (c12WorkerKind, FieldID, bool) { return wkAuto, x.cmClosers, true }
 	stopCache := map[*ssa.Function][2]bool{}
 	// The inner manager's running flag is only set by RunnerManager.Run; if
 	// the only place the package runs the inner manager is Run's own call tree,
@@ -196,6 +174,12 @@ func (x *c12) checkCloserRun() {
 		// is refused — the closers are frozen and may be read without the lock
 		bFence   = 1 << 24
 		bJoinNil = 1 << 25
+		// second slot of collected-result tracking (closer results); the first
+		// slot (bEAct/shENil/bEApp) tracks the inner manager's result, which may
+		// be handed to errors.Join only later
+		bE1Act = 1 << 26
+		sh1Nil = 27
+		bE1App = 1 << 29
 	)
 	sawGo, sawTAS, sawInner, sawCloserGo, sawStopClose, sawStopReg := false, false, false, false, false, false
 	var resultChan ssa.Value
@@ -206,6 +190,8 @@ func (x *c12) checkCloserRun() {
 				continue // the number of runners only matters for the stop runner
 			}
 			m, n := m, n
+			var innerVal ssa.Value
+			innerShared := false
 			isE := func(v xVal) bool {
 				if v.K != xAtom {
 					return false
@@ -221,14 +207,40 @@ func (x *c12) checkCloserRun() {
 				c, ok := v.V.(*ssa.Call)
 				return ok && staticCallee(c) == x.rmRun
 			}
-			verifyE := func(st *xState, where string) {
-				if st.Client&bEAct == 0 || st.Client&bEApp != 0 {
+			// slots: 0 = the inner manager's result, 1 = the closer results; when one
+			// receive instruction delivers both kinds they share slot 1
+			type slot struct {
+				act, app uint64
+				sh       uint
+			}
+			slots := [2]slot{{bEAct, bEApp, shENil}, {bE1Act, bE1App, sh1Nil}}
+			slotOf := func(v ssa.Value) int {
+				if ex, ok := v.(*ssa.Extract); ok {
+					if sel, isSel := ex.Tuple.(*ssa.Select); isSel {
+						v = sel
+					}
+				}
+				if innerVal != nil && v == innerVal && !innerShared {
+					return 0
+				}
+				return 1
+			}
+			isEk := func(k int) func(xVal) bool {
+				return func(v xVal) bool { return isE(v) && slotOf(v.V) == k }
+			}
+			verifySlot := func(st *xState, k int, where string) {
+				sl := slots[k]
+				if st.Client&sl.act == 0 || st.Client&sl.app != 0 {
 					return
 				}
-				if int(st.Client>>shENil)&3 == c12Yes {
+				if int(st.Client>>sl.sh)&3 == c12Yes {
 					return
 				}
 				x.bad("C12.K3-collect", cColl, "", "a collected result (of the runners or of a closer) that is not known to be nil does not reach errors.Join ("+where+"): that error is missing from the error Run and Close return")
+			}
+			verifyE := func(st *xState, where string) {
+				verifySlot(st, 0, where)
+				verifySlot(st, 1, where)
 			}
 			release := func(st *xState, where string) {
 				if st.Client&bRead != 0 && st.Client&bClosing == 0 {
@@ -267,21 +279,39 @@ func (x *c12) checkCloserRun() {
 				if innerOnlyHere && st.Client&bOwn != 0 && st.Client&bInnerGo == 0 && x.flagSet(cond, truth, x.rmRunning) {
 					return false // infeasible: the inner manager has not been started yet
 				}
-				if st.Client&bEAct != 0 {
-					if fnn, _ := x.errFacts(st, cond, truth, isE); fnn != c12Unk {
-						nn := int(st.Client>>shENil) & 3
+				for k, sl := range slots {
+					if st.Client&sl.act == 0 {
+						continue
+					}
+					if fnn, _ := x.errFacts(st, cond, truth, isEk(k)); fnn != c12Unk {
+						nn := int(st.Client>>sl.sh) & 3
 						if nn != c12Unk && nn != fnn {
 							return false
 						}
-						st.Client = st.Client&^(3<<shENil) | uint64(fnn)<<shENil
+						st.Client = st.Client&^(3<<sl.sh) | uint64(fnn)<<sl.sh
 					}
 				}
 				return true
 			}
-			newE := func(st *xState, where string) {
-				verifyE(st, where)
-				st.Client &^= bEApp | 3<<shENil
-				st.Client |= bEAct
+			// newE: a result was produced by instruction `by`; the previous value of
+			// the same slot must have been dealt with by now
+			newE := func(st *xState, where string, by ssa.Value, inner bool) {
+				if inner {
+					if innerVal != nil && innerVal != by {
+						innerShared = true // several sites deliver the inner result: be strict
+					}
+					innerVal = by
+				} else if by == innerVal {
+					innerShared = true
+				}
+				k := slotOf(by)
+				if innerShared {
+					verifySlot(st, 0, where)
+					st.Client &^= slots[0].act
+				}
+				verifySlot(st, k, where)
+				st.Client &^= slots[k].app | 3<<slots[k].sh
+				st.Client |= slots[k].act
 			}
 			registerRunners := func(st *xState, vals []xVal, in ssa.Instruction) {
 				for _, val := range vals {
@@ -318,7 +348,7 @@ func (x *c12) checkCloserRun() {
 						return false
 					}
 					st.Client |= bInnerDone
-					newE(st, "before the receive at "+x.pos(in))
+					newE(st, "before the receive at "+x.pos(in), in.(ssa.Value), true)
 					return true
 				}
 				res := int(st.Client>>shRes) & 7
@@ -337,7 +367,7 @@ func (x *c12) checkCloserRun() {
 				}
 				res++
 				st.Client = st.Client&^(7<<shRes) | uint64(res)<<shRes
-				newE(st, "before the receive at "+x.pos(in))
+				newE(st, "before the receive at "+x.pos(in), in.(ssa.Value), false)
 				return true
 			}
 			cl.OnSelect = func(st *xState, sel *ssa.Select, k int) bool {
@@ -399,7 +429,7 @@ func (x *c12) checkCloserRun() {
 						sawInner = true
 						x.innerStart(st, in, m, bStopReg, bOwn, cOnce, cStopR)
 						st.Client |= bInnerGo | bInnerDone
-						newE(st, "before "+x.pos(in))
+						newE(st, "before "+x.pos(in), v, true)
 					}
 				case *ssa.Go:
 					sawGo = true
@@ -491,8 +521,10 @@ func (x *c12) checkCloserRun() {
 							x.bad("C12.K3-collect", cJoin, x.pos(in), "the value stored at "+x.pos(in)+" in the field Close returns is not the errors.Join of the collected results")
 						}
 					}
-					if st.Client&bEAct != 0 && isE(st.Eval(v.Val)) && x.joinStore(v) {
-						st.Client |= bEApp
+					if val := st.Eval(v.Val); isE(val) && x.joinStore(v) {
+						if sl := slots[slotOf(val.V)]; st.Client&sl.act != 0 {
+							st.Client |= sl.app
+						}
 					}
 				}
 				return true
@@ -711,7 +743,7 @@ func (x *c12) checkWrappers() {
 	fn := x.cmAddCloser
 	fname := FuncName(p, fn)
 	assertedName := func(v ssa.Value) (string, bool) {
-		rs := c12Roots(v, nil)
+		rs := x.throughFields(c12Roots(v, nil), 0)
 		if len(rs) == 0 {
 			return "", false
 		}
